@@ -250,6 +250,13 @@ func serveTCPSocket(conn *net.TCPConn, addr *net.TCPAddr, inbound chan<- Service
 			return
 		}
 
+		// A frame is never shorter than its header; without this the worker would spin on the
+		// same header forever.
+		if totalLen < 6 {
+			util.Log(conn, "Error during header inspection: total length %d is too short", totalLen)
+			return
+		}
+
 		buffer := make([]byte, totalLen)
 		len, err := io.ReadFull(connBuffer, buffer)
 		if err != nil {
